@@ -63,7 +63,7 @@ func (i *inst) Check(x *vsched.Exec) sched.Verdict {
 			v.Detail = detail
 		}
 	case vsched.KindPanic:
-		v.Sig = map[string]string{"site": core.PanicSite(x.PanicStack), "kind": "panic"}
+		v.Sig = map[string]string{"site": sched.PanicSite(x.PanicStack), "kind": "panic"}
 		v.Detail = "panic: " + core.FirstLine(x.PanicVal)
 	default: // deadlock, livelock, horizon
 		// the transaction whose end callback is the first one missing
@@ -145,26 +145,46 @@ func Run(run *core.Run) core.Coverage {
 	self := sched.SelfTest()
 
 	blocks := body.AllBlocks()
+	// The ladder of schedule spaces (sched.Rung).  Pure preemption bounding
+	// (unlimited free switches) multiplies every preemption by every order in
+	// which blocked/finished/spinning threads hand over, so the ladder
+	// alternates: more preemptions with default hand-overs, then more
+	// hand-over deviations.
 	valCounts := []int{1, 2}
-	bounds := []int{0, 1, 2}
-	budget := 75 * time.Second
+	rungs := []sched.Rung{{Bound: 1, MaxFree: 0}, {Bound: 0, MaxFree: -1}, {Bound: 1, MaxFree: 1}, {Bound: 2, MaxFree: 0}}
+	target := 1 // rungs that must complete for exhaustive=true
+	rungsFor := func(n int) int { return 0 }
+	budget := 50 * time.Second
 	if !run.Quick() {
 		valCounts = []int{1, 2, 3}
-		bounds = []int{0, 1, 2, 3}
+		rungs = []sched.Rung{{Bound: 1, MaxFree: 0}, {Bound: 0, MaxFree: -1}, {Bound: 1, MaxFree: 1}, {Bound: 2, MaxFree: 0}, {Bound: 2, MaxFree: 1}, {Bound: 1, MaxFree: -1}, {Bound: 3, MaxFree: 0}}
+		target = 4
+		rungsFor = func(n int) int {
+			if n >= 3 {
+				return 3 // three validator goroutines: up to (1 preemption, 1 free deviation)
+			}
+			return 0
+		}
 		budget = 11 * time.Minute
 	}
-	if v := os.Getenv("C05B_BOUNDS"); v != "" { // development aid
-		bounds = nil
+	if v := os.Getenv("C05B_RUNGS"); v != "" { // development aid: "1:0,0:-1"
+		rungs = nil
 		for _, f := range strings.Split(v, ",") {
-			var b int
-			fmt.Sscan(f, &b)
-			bounds = append(bounds, b)
+			var r sched.Rung
+			fmt.Sscanf(f, "%d:%d", &r.Bound, &r.MaxFree)
+			rungs = append(rungs, r)
 		}
+		target = len(rungs)
+	}
+	if v := os.Getenv("C05B_BUDGET_S"); v != "" {
+		var sec int
+		fmt.Sscan(v, &sec)
+		budget = time.Duration(sec) * time.Second
 	}
 	var tasks []sched.Task
 	for _, n := range valCounts {
 		for _, k := range blocks {
-			tasks = append(tasks, sched.Task{Label: fmt.Sprintf("%s/n%d", k, n), Program: Program, Config: Config{Kinds: k, Validators: n}, Horizon: horizon})
+			tasks = append(tasks, sched.Task{Label: fmt.Sprintf("%s/n%d", k, n), Program: Program, Config: Config{Kinds: k, Validators: n}, Horizon: horizon, Rungs: rungsFor(n)})
 		}
 	}
 	// the serial reference of every block differs from block to block: 27 distinct references
@@ -178,7 +198,7 @@ func Run(run *core.Run) core.Coverage {
 		nw = 16
 	}
 	pool := sched.NewPool(Program, nw)
-	rep := sched.Explore(pool, tasks, sched.Limits{Bounds: bounds, Deadline: time.Now().Add(budget)})
+	rep := sched.Explore(pool, tasks, sched.Limits{Rungs: rungs, Deadline: time.Now().Add(budget)})
 	pool.Close()
 
 	// violations: one report per (sig, task); core keeps the first per sig
@@ -194,29 +214,41 @@ func Run(run *core.Run) core.Coverage {
 	samples := core.NewSampler(5, run.Seed)
 	for _, tr := range rep.Tasks {
 		cfg := tr.Task.Config.(Config)
+		maxClasses, maxVals := 0, 0
+		var last *sched.Pass
 		for _, p := range tr.Passes {
 			for _, f := range p.Found {
-				hits = append(hits, hit{f, cfg, p.Bound})
+				hits = append(hits, hit{f, cfg, p.Rung.Bound})
+			}
+			if !p.Complete && p.RungIndex >= rep.RungsCompleted {
+				// a pass cut by the deadline still contributes the schedules it checked
+			}
+			transitions += p.Executions
+			if p.Classes > maxClasses {
+				maxClasses = p.Classes
+			}
+			if p.ValHists > maxVals {
+				maxVals = p.ValHists
+			}
+			for o, n := range p.Outcomes {
+				distinctObs[tr.Task.Label+"|"+o] = true
+				cls := "equals-serial-reference"
+				if !strings.HasPrefix(o, "done: ") {
+					cls = o[:strings.Index(o, ":")]
+				} else if k, tk, _ := body.Compare(cfg.Kinds, strings.TrimPrefix(o, "done: ")); k != "" {
+					cls = k + "/" + body.KindName(tk)
+				}
+				outcomes[cls] += n
+			}
+			if p.Complete {
+				last = p
 			}
 		}
-		lp := tr.Last()
-		if lp == nil {
-			continue
+		classes += int64(maxClasses)
+		valhists += int64(maxVals)
+		if last != nil {
+			samples.Add(map[string]interface{}{"task": tr.Task.Label, "space": last.Rung.String(), "schedules": last.Executions, "scheduling_points_max": last.PointsMax, "threads": last.Threads, "distinct_sync_orders": last.Classes, "distinct_read_value_histories": last.ValHists, "default_schedule_observation": last.RootObs})
 		}
-		transitions += lp.Executions
-		classes += int64(lp.Classes)
-		valhists += int64(lp.ValHists)
-		for o, n := range lp.Outcomes {
-			distinctObs[tr.Task.Label+"|"+o] = true
-			cls := "equals-serial-reference"
-			if !strings.HasPrefix(o, "done: ") {
-				cls = o[:strings.Index(o, ":")]
-			} else if k, tk, _ := body.Compare(cfg.Kinds, strings.TrimPrefix(o, "done: ")); k != "" {
-				cls = k + "/" + body.KindName(tk)
-			}
-			outcomes[cls] += n
-		}
-		samples.Add(map[string]interface{}{"task": tr.Task.Label, "bound": lp.Bound, "schedules": lp.Executions, "scheduling_points_max": lp.PointsMax, "threads": lp.Threads, "distinct_sync_orders": lp.Classes, "distinct_read_value_histories": lp.ValHists, "default_schedule_observation": lp.RootObs})
 	}
 	sort.SliceStable(hits, func(i, j int) bool {
 		if hits[i].f.Preemptions != hits[j].f.Preemptions {
@@ -248,11 +280,17 @@ func Run(run *core.Run) core.Coverage {
 	cov["violating_schedule_classes"] = foundKinds
 	cov["tasks"] = len(tasks)
 	cov["worker_processes"] = nw
-	cov["exhaustive"] = rep.Exhaustive
-	cov["bounds"] = map[string]interface{}{"txs_per_block": 3, "blocks": len(blocks), "validator_goroutines": valCounts, "preemption_bounds_requested": bounds, "step_horizon": horizon}
-	cov["rule"] = "every block in {valid, invalid-signature, undecodable}^3 × validateRoutineCount; per (block, count) and per preemption bound b: stateless DFS over the scheduling decisions of the real exeWithCPUParallelVeirfy under the cooperative scheduler — every alternative thread at every scheduling point (before each sync/atomic/time/go operation and after each atomic) whose schedule has at most b preemptions; transitions = schedules executed at the largest completed bound; states = distinct per-object operation orders (schedules that differ only in the order of operations on different objects count once); distinct_nontrivial = distinct per-thread histories of values read from shared words (which status each thread saw when); every schedule is checked against the serial verifier's callback sequence"
+	exhaustive := rep.RungsCompleted >= target
+	cov["exhaustive"] = exhaustive
+	var ladder []string
+	for _, r := range rungs {
+		ladder = append(ladder, r.String())
+	}
+	cov["bounds"] = map[string]interface{}{"txs_per_block": 3, "blocks": len(blocks), "validator_goroutines": valCounts, "schedule_spaces_in_order": ladder, "spaces_required_for_exhaustive": target, "step_horizon": horizon}
+	cov["rule"] = "every block in {valid, invalid-signature, undecodable}^3 × validateRoutineCount; per (block, count) and per schedule space (preemptions<=b, free-switch deviations<=f; see bounds.schedule_spaces_in_order, exhausted in that order): stateless DFS over the scheduling decisions of the real exeWithCPUParallelVeirfy under the cooperative scheduler — every alternative thread at every scheduling point (before each sync/atomic/time/go operation and after each atomic) whose schedule stays inside the space; transitions = schedules executed (each one on the real code, each one checked); states = distinct per-object operation orders (schedules that differ only in the order of operations on different objects count once); distinct_nontrivial = distinct per-thread histories of values read from shared words (which status each thread saw when); every schedule is checked against the serial verifier's callback sequence"
 	if !rep.Exhaustive {
-		cov["cap"] = fmt.Sprintf("time budget %v reached: largest bound completed for every task = %d", budget, rep.BoundCompleted)
+		pure, restr := rep.MaxPreemptionBound()
+		cov["cap"] = fmt.Sprintf("time budget %v reached after %d of %d schedule spaces (the first %d are required for exhaustive=true): largest preemption bound completed = %d (with unlimited free switches: %d)", budget, rep.RungsCompleted, len(rungs), target, restr, pure)
 	}
 	cov["samples"] = samples.List()
 	racePass(run, cov, foundKinds)
